@@ -233,7 +233,7 @@ pub fn property(tier: Tier) -> Property {
             Box::new(RandomPart {
                 name: "stream_cuts",
                 rule: "proptest: well-formed stream of 1-5 responses of every shape; EVERY cut position 0..=len when len <= 1024 B (thorough 2048), otherwise all positions within 8 bytes of a structural edge, around 4096/8192/16384 and 64 random ones; each cut x {whole, one-byte, 7-byte chunks} x {blocking, async} plus, for whole and 7-byte chunks, {blocking with a transient WouldBlock error before every read and receive() called again, async with every pending receive future dropped and re-created}; responses wholly before the cut must be delivered, then Ok(None) iff the cut is a recorded boundary else UnexpectedEof. non-trivial = case containing a cut strictly inside a response; the class histogram counts cases per cut location class; 'executions' counts connection runs (one per cut x segmentation x flavour)",
-                cases: (450, 12_000),
+                cases: (300, 12_000),
                 strategy: Box::new(strategy),
                 check: Box::new(move |c| check_with(c, limit)),
             }),
